@@ -3,6 +3,7 @@ package tags
 import (
 	"io"
 	"path/filepath"
+	"reflect"
 
 	"github.com/osteele/liquid/render"
 )
@@ -17,6 +18,9 @@ func includeTag(source string) (func(io.Writer, render.Context) error, error) {
 			return err
 		}
 		rel, ok := value.(string)
+		if rv := reflect.ValueOf(value); !ok && rv.Kind() == reflect.String {
+			rel, ok = rv.String(), true // a named string type
+		}
 		if !ok {
 			return ctx.Errorf("include requires a string argument; got %v", value)
 		}
